@@ -84,6 +84,8 @@ TrDefDerive ==
                 /\ Clause("C14." \o e.c.op \o ".missing", ~ (r.out = "KeyError" /\ e.out = "KeyError") \/ e.ret = r.ret)
                 /\ Clause("C14." \o e.c.op \o ".value", ~ (r.out = "ok" /\ e.out = "ok") \/ (PostHas(e.new) /\ PostOf(e.new) = r.d))
                 /\ Clause("C14." \o e.c.op \o ".newobject", e.out # "ok" \/ e.isnew)
+                (* names of the sources that are not in the result are unknown to it (reading raises KeyError) *)
+                /\ Clause("C14." \o e.c.op \o ".noghosts", e.out # "ok" \/ e.ghosts = <<>>)
                 /\ Clause("C14." \o e.c.op \o ".frame", Frame({e.new}))
        ELSE Clause("domain", FALSE) /\ UNCHANGED ds
     /\ UNCHANGED cs
